@@ -5,6 +5,7 @@
 
 mod batch;
 mod checks;
+mod exprm;
 mod icase;
 mod isa;
 mod report;
